@@ -8,5 +8,8 @@ import (
 
 // Native counterpart of the engine stub (*client).getRegionAndClientForRPC => vRetryLocate.
 func (c *client) getRegionAndClientForRPC(ctx context.Context, rpc hrpc.Call) (hrpc.RegionClient, error) {
+	if vRetryEnv2 != nil {
+		return vRetryLocate2(c, ctx, rpc)
+	}
 	return vRetryLocate(c, ctx, rpc)
 }
